@@ -452,6 +452,10 @@ func classifyMsgAtom(p *Prog, t *Term) (atomClass, bool, bool) {
 			if f, ok := fieldOfSubject(t.Args[0]); ok {
 				return atomClass{f, "nonul", LangSpec{}}, false, true
 			}
+		case t.Name == "unicode/utf8.ValidString" && len(t.Args) == 1:
+			if f, ok := fieldOfSubject(t.Args[0]); ok {
+				return atomClass{f, "utf8", LangSpec{}}, true, true
+			}
 		case t.Name == "(time.Time).IsZero":
 			if f, ok := fieldOfSubject(t.Args[0]); ok {
 				return atomClass{f, "nonzero-time", LangSpec{}}, false, true
